@@ -43,7 +43,9 @@ def _resolve_directory(path: Path) -> Path:
     """
     try:
         return path.parent.resolve(strict=False) / path.name
-    except (OSError, RuntimeError) as ex:  # E.g., a loop of symbolic links (RuntimeError prior to Python 3.13).
+    except (OSError, RuntimeError, ValueError) as ex:
+        # E.g., a loop of symbolic links (RuntimeError prior to Python 3.13), or a directory name that no directory
+        # can have (embedded null character, a character that cannot be encoded for the file system: ValueError).
         raise InvalidDefinitionError("The location of the file cannot be resolved: %s" % ex, path) from None
 
 
@@ -107,7 +109,7 @@ class DSDLDefinition(ReadableDSDLFile):
                 directly_inferred = Path(dsdl_path.parts[0])
                 try:
                     directly_inferred.resolve(strict=True)
-                except FileNotFoundError:
+                except (OSError, RuntimeError, ValueError):  # Does not exist, or cannot exist (loop of links, bad name).
                     raise PathInferenceError(
                         f"No valid root found in path {str(dsdl_path)} and the inferred root {str(directly_inferred)} "
                         "does not exist. You either need to change your working directory to the folder that contains "
